@@ -9,9 +9,12 @@ import (
 	"strings"
 	"time"
 
+	cdc "github.com/craterdog/go-collection-framework/v4/cdcn"
+	rt "github.com/craterdog/go-collection-framework/v4/verifrt"
 	"verif/checks/cdcnx"
 	"verif/checks/common"
 	"verif/engine"
+	"verif/engine/dump"
 )
 
 type inCase struct {
@@ -396,6 +399,88 @@ func ladder(r *engine.Rec) {
 	r.Sample(inCase{"nesting", "[[[1](List)](List)](List)"})
 }
 
+// reuse: one parser instance used for a history of calls behaves like a fresh
+// parser on every call (a failed parse must not poison the instance).
+func reuse(r *engine.Rec) {
+	first := []string{"[1 1](List)", "[", "]", "[1, 2](Catalog)", "[\n    1\n    2 3\n](List)\n", "[1](List) x", "[1, 2, 3, 4, 5, 6, 7, 8, 9, 10, 11, 12, 13, 14, 15, 16, 17, 18 19](List)",
+		"[\"a\": ](Catalog)", "[1](Lisp)", "x", "[(1.0+2.0i)", "[1](List)", "[ ](Set)\n\n"}
+	second := []string{"[1](List)", "[\n    \"a\": 1\n    \"b\": 2\n](Catalog)\n", "[2, 3](Set)", "[", "[1 1](List)", "[ ](Queue)"}
+	type rc struct {
+		First  string `json:"first"`
+		Second string `json:"then"`
+		Third  string `json:"then2,omitempty"`
+	}
+	outcome := func(p cdc.ParserLike, src string) string {
+		var v any
+		var out rt.Outcome
+		ex := rt.RunOnce(rt.Config{Elide: true}, nil, []rt.ThreadSpec{{Name: "parser", Body: func() {
+			out = rt.Protect(cdcnx.Budget(len(src)), func() { v = p.ParseSource(src) })
+		}}})
+		switch {
+		case len(ex.Stuck) > 0:
+			return "HANG/LEAK " + fmt.Sprint(ex.SortedStuck())
+		case out.Fuel:
+			return "NONTERMINATION"
+		case out.Panicked:
+			return "panic(runtime=" + fmt.Sprint(out.Runtime) + "): " + out.Value
+		}
+		return "value: " + dump.Dump(v)
+	}
+	n := 0
+	for _, a := range first {
+		for _, b := range second {
+			c := rc{First: a, Second: b}
+			if !r.Wanted(c) {
+				continue
+			}
+			n++
+			p := cdc.Parser().Make()
+			outcome(p, a)
+			got := outcome(p, b)
+			want := outcome(cdc.Parser().Make(), b)
+			r.Evals += 3
+			if got != want {
+				r.Violation("a parser instance behaves differently after an earlier call (state survives between calls)", fmt.Sprintf("after %q, parsing %q:\n got  %s\n want %s", a, b, firstLine(got), firstLine(want)), c)
+				continue
+			}
+			// and once more
+			got3 := outcome(p, second[0])
+			want3 := outcome(cdc.Parser().Make(), second[0])
+			r.Evals += 2
+			if got3 != want3 {
+				r.Violation("a parser instance behaves differently after an earlier call (state survives between calls)", fmt.Sprintf("after %q and %q, parsing %q:\n got  %s\n want %s", a, b, second[0], firstLine(got3), firstLine(want3)), rc{a, b, second[0]})
+			}
+		}
+	}
+	r.States += int64(n)
+	r.Distinct += int64(n)
+	r.Transitions += r.Evals
+	r.Sample(rc{First: "[1 1](List)", Second: "[1](List)"})
+}
+
+// deepSets: a Set (ordered by the collator, which has its own depth limit) of deeply nested items
+func deepSets(r *engine.Rec) {
+	n := 0
+	for d := 1; d <= 24; d++ {
+		for _, kind := range []string{"Set", "Catalog", "List"} {
+			nest := func(leaf string) string { return strings.Repeat("[", d) + leaf + strings.Repeat("](List)", d) }
+			src := "[" + nest("1") + ", " + nest("2") + "](" + kind + ")"
+			if kind == "Catalog" {
+				src = "[1: " + nest("1") + ", 2: " + nest("2") + "](Catalog)"
+			}
+			if !r.Wanted(inCase{"deep-items", src}) {
+				continue
+			}
+			n++
+			judge(r, "deep-items", src, 0)
+		}
+	}
+	r.States += int64(n)
+	r.Distinct += int64(n)
+	r.Transitions += r.Evals
+	r.Sample(inCase{"deep-items", "[[[1](List)](List), [[2](List)](List)](Set)"})
+}
+
 func init() {
 	engine.Register(&engine.Check{
 		ID:        "C12",
@@ -413,7 +498,7 @@ func init() {
 			for _, l := range lexemes {
 				us = append(us, engine.Unit{Name: "lexemes-" + strconv.Quote(l), Run: lexemeUnit(l)})
 			}
-			us = append(us, engine.Unit{Name: "raw-characters", Run: rawChars}, engine.Unit{Name: "nesting-ladder", Run: ladder})
+			us = append(us, engine.Unit{Name: "raw-characters", Run: rawChars}, engine.Unit{Name: "nesting-ladder", Run: ladder}, engine.Unit{Name: "parser-reuse", Run: reuse}, engine.Unit{Name: "deep-items", Run: deepSets})
 			for di := range corpus {
 				us = append(us, engine.Unit{Name: fmt.Sprintf("corpus-edits-%d", di), Run: corpusEdits(di)})
 			}
